@@ -59,7 +59,8 @@ type RunResult struct {
 	Harness     string         `json:"harness_error,omitempty"`
 	PrefixSeeds []uint64       `json:"prefix_seeds,omitempty"`
 	Tier        string         `json:"tier,omitempty"`
-	TZ          string         `json:"tz,omitempty"` // time zone of the process that executed the run
+	TZ          string         `json:"tz,omitempty"`         // time zone of the process that executed the run
+	GMP         int            `json:"gomaxprocs,omitempty"` // GOMAXPROCS of the process that executed the run
 }
 
 // freeRunning: tasks run as ordinary goroutines with real parallelism and no scheduler (the
